@@ -135,12 +135,6 @@ def insertMove (s : List Rule) (v : Rule) : List Rule :=
 def Store.loadInsert (s : Store) (sec ptype : String) (rule : Rule) : Store :=
   s.update sec ptype (fun d => { d with policy := insertMove d.policy rule })
 
-def splitLines (s : List Char) : List (List Char) :=
-  let rec go (cur : List Char) : List Char → List (List Char)
-    | [] => [cur.reverse]
-    | c :: cs => if c = '\n' then cur.reverse :: go [] cs else go (c :: cur) cs
-  go [] s
-
 /-- memory adapter: a line `[sec, ptype, fields…]` is one record (memory_adapter.rs:18-30) -/
 def memRecords (lines : List Rule) : List (String × String × Rule) :=
   lines.filterMap (fun l =>
